@@ -13,6 +13,10 @@ import (
 	"github.com/tyler-sommer/stick/parse"
 )
 
+// maxRangeLength is the largest number of elements the range operator ("..")
+// will produce.
+const maxRangeLength = 10000000
+
 // Type state represents the internal state of a template execution.
 //
 // state implements the exported Context interface.
@@ -668,9 +672,21 @@ func (s *state) evalExpr(exp parse.Expr) (v Value, e error) {
 			return CoerceNumber(left) < CoerceNumber(right), nil
 		case parse.OpBinaryRange:
 			l, r := CoerceNumber(left), CoerceNumber(right)
-			res := make([]float64, uint(math.Ceil(r-l))+1)
-			for i, k := 0, l; k <= r; i, k = i+1, k+1 {
-				res[i] = k
+			if math.IsNaN(l) || math.IsInf(l, 0) || math.IsNaN(r) || math.IsInf(r, 0) {
+				return nil, errors.New("range bounds must be finite numbers")
+			}
+			// Like Twig, count down when the end is before the start.
+			step := 1.0
+			if r < l {
+				step = -1
+			}
+			n := math.Floor(math.Abs(r-l)) + 1
+			if n > maxRangeLength {
+				return nil, fmt.Errorf("range %v..%v has more than %d elements", l, r, maxRangeLength)
+			}
+			res := make([]float64, int(n))
+			for i := range res {
+				res[i] = l + float64(i)*step
 			}
 			return res, nil
 		case parse.OpBinaryBitwiseAnd:
